@@ -292,6 +292,8 @@ def run_history(stack, c, ops):
     oracle = AbsMap(1000, c.get("prefix", b""), c.get("default_noreply", True))
     world = cs.World([], [], (), 1, srv.feed)
     server, kw = cs.client_kwargs(c, world)
+    if "default_noreply" not in c:
+        kw.pop("default_noreply")       # the constructor is not told: every class documents default_noreply=True
     from pymemcache.client.base import Client, PooledClient
     from pymemcache.client.hash import HashClient
     if stack == "Client":
@@ -416,6 +418,7 @@ def search(ctx):
     found = []
     n = 0
     cfgs = [dict(tcp=False, prefix=p, default_noreply=dn, ignore_exc=False) for p in (b"", b"p:") for dn in (False, True)]
+    cfgs.append(dict(tcp=False, prefix=b"", ignore_exc=False))      # default_noreply left to the class's own (documented) default
     # expiry-changing operations observed after the clock moves: (initial ttl, new ttl, seconds elapsed)
     targeted = []
     for ret in (lambda e: (5, b"a", e, None), lambda e: (6, b"a", e, None, None), lambda e: (13, b"a", e, False), lambda e: (13, b"a", e, True)):
@@ -428,10 +431,10 @@ def search(ctx):
             targeted.append([(0, 0, b"a", b"5", 0, False, None), (14, d, nr), ("tick", 3), (3, b"a", b"dflt"), (0, 1, b"a", b"new", 0, False, None), (3, b"a", None)])
     nt = len(targeted)
     for i in range(nt + (400 if ctx.quick else 6000)):
-        c = cfgs[i % 4]
+        c = cfgs[i % 5]
         ops = targeted[i] if i < nt else random_history(rng, rng.randrange(3, 14))
         for stack in ("Client", "PooledClient", "HashClient", "Client+aliases", "PooledClient+aliases", "HashClient+aliases"):
-            if stack != "Client" and i % 5 and i >= nt:      # 5 is coprime to the 4 configurations: the wrappers meet all of them
+            if stack != "Client" and i % 3 and i >= nt:      # 3 is coprime to the 5 configurations: the wrappers meet all of them
                 continue
             if "+" in stack and not any(o[0] in (1, 7, 8, 10) for o in ops):
                 continue
